@@ -36,7 +36,8 @@ func VerifH_C04_L2_restart() {
 	}
 	loc := time.FixedZone("UTC", 0)
 	tzutils.VerifHook_ParseTimezone = func(val string) (*time.Location, error) { return loc, nil }
-	expr := &vz.SymExpr{Name: "expr", NeverEnds: true}
+	// (every evaluation of the expression happens in the JobConfig's effective timezone)
+	expr := &vz.SymExpr{Name: "expr", NeverEnds: true, ExpectLoc: loc, CheckLoc: true}
 	cron.VerifParseHook = func(p *cron.Parser, line, hashID string) (cron.Expression, error) { return expr, nil }
 	start := vz.InstantNear("start")
 	jc := &execution.JobConfig{}
@@ -65,6 +66,16 @@ func VerifH_C04_L2_restart() {
 		naf = vz.InstantNear("notAfter")
 		t := metav1.NewTime(naf)
 		jc.Spec.Schedule.Constraints = &execution.ScheduleContraints{NotAfter: &t}
+	}
+	hasNBF := vz.Bool("hasNotBefore")
+	var nbf time.Time
+	if hasNBF {
+		nbf = vz.InstantNear("notBefore")
+		t := metav1.NewTime(nbf)
+		if jc.Spec.Schedule.Constraints == nil {
+			jc.Spec.Schedule.Constraints = &execution.ScheduleContraints{}
+		}
+		jc.Spec.Schedule.Constraints.NotBefore = &t
 	}
 	w0 := vz.InstantSec("w")
 	expr.HasW = true
@@ -112,6 +123,9 @@ func VerifH_C04_L2_restart() {
 		if hasNAF {
 			vz.Assert(!e.ts.After(naf), "C04/L2/notAfter")
 		}
+		if hasNBF {
+			vz.Assert(!e.ts.Before(nbf), "C04/L2/notBefore")
+		}
 	}
 	// completeness: a match that is still due after the restart (after the last recorded run,
 	// inside the tolerated downtime, after the last schedule change, inside the window, not in
@@ -127,6 +141,10 @@ func VerifH_C04_L2_restart() {
 	}
 	if hasNAF {
 		due = vz.And(due, !w0.After(naf))
+	}
+	if hasNBF {
+		due = vz.And(due, w0.After(nbf))
+		vz.Cover("notBefore-set")
 	}
 	fired := false
 	for _, e := range rec.enq {
